@@ -431,6 +431,12 @@ class SSHChannel(Generic[AnyStr], SSHPacketHandler):
         else:
             self._deliver_data(data, datatype)
 
+    def _service_queued_requests(self) -> None:
+        """Process requests received before the session was set up"""
+
+        if self._request_queue and self._session is not None:
+            self._service_next_request()
+
     def _service_next_request(self) -> None:
         """Process next item on channel request queue"""
 
@@ -692,7 +698,10 @@ class SSHChannel(Generic[AnyStr], SSHPacketHandler):
             raise ProtocolError('Invalid channel request') from None
 
         self._request_queue.append((request, packet, want_reply))
-        if len(self._request_queue) == 1:
+
+        # A request can arrive right behind the confirmation of an open,
+        # before the session is set up. It is serviced once that is done.
+        if len(self._request_queue) == 1 and self._session is not None:
             self._service_next_request()
 
     def _process_response(self, pkttype: int, _pktid: int,
@@ -1194,6 +1203,7 @@ class SSHClientChannel(SSHChannel, Generic[AnyStr]):
 
         self._session = session_factory()
         self._session.connection_made(self)
+        self._service_queued_requests()
 
         self._env = env
         self._command = command
@@ -2083,6 +2093,7 @@ class SSHForwardChannel(SSHChannel, Generic[AnyStr]):
 
         self._session = session_factory()
         self._session.connection_made(self)
+        self._service_queued_requests()
         self._session.session_started()
 
         assert self._conn is not None
